@@ -10,8 +10,8 @@ THEOREMS = [
     "C22_percent_unescaped_refuted", "C22_utf8_lossy_valid",
     "C22_punycode_partial", "C22_punycode_ascii_passthrough", "C22_punycode_vli", "C22_punycode_alabel_refuted",
     "C22_codec_glue_flate", "C22_flate_level10_refuted", "C22_codec_glue_zstd", "C22_codec_glue_snappy",
-    "C22_codec_glue_lz4", "C22_lz4_size_prefix", "C22_lz4_default_options_refuted", "C22_lz4_bufsize_refuted",
-    "C22_codec_glue_charset", "C22_codec_glue_punycode_validate", "C22_nonvacuous",
+    "C22_codec_glue_lz4", "C22_lz4_size_prefix", "C22_lz4_default_options_refuted", "C22_lz4_bufsize_rejected",
+    "C22_codec_glue_charset", "C22_charset_invalid_utf8_lossy", "C22_codec_glue_punycode_validate", "C22_nonvacuous",
 ]
 IMPORTS = ("From Coq Require Import List NArith ZArith String.\n"
            "From VRL Require Import Base.Bytes Base.Lit Model.Base16 Model.Base64 Model.CodecUtf8 Model.Percent "
@@ -33,8 +33,8 @@ MANIFEST = {
             "variables with the inverse law as hypothesis (trusted base, exercised by the search leg). The bootstring "
             "(RFC 3492) inverse is a hypothesis of C22_punycode_partial; its integer coding lemma is proved. "
             "str::to_lowercase is modelled for ASCII/Latin-1/Greek/Cyrillic only. Known findings: percent sets without '%', "
-            "gzip/zlib level 10 panics, lz4 default options do not match, lz4 buf_size out of u32 range panics, "
-            "charset UTF-16 labels and BOM sniffing. No axioms (Print Assumptions: closed).",
+            "gzip/zlib level 10 panics, lz4 default options do not match, charset UTF-16 labels and BOM sniffing "
+            "(repaired: lz4 buf_size out of range, encode_charset on non-UTF-8 input). No axioms (Print Assumptions: closed).",
     "design_ref": "DESIGN.md section 5 C22",
 }
 
@@ -677,11 +677,14 @@ def direct_ok(c, o):
     if k in ("gzip", "zlib") and (c["level"] % 2 ** 32) > 10:
         return st[0].get("err") == "error"
     if k == "lz4" and not c["defaults"]:
-        match = c["prepend"] == c["prepended"] and (c["prepended"] or (0 <= c["buf"] < 2 ** 32 and len(x) <= c["buf"]))
+        valid = 0 <= c["buf"] < 2 ** 32
+        if not valid:
+            return st[2].get("err") == "error"
+        match = c["prepend"] == c["prepended"] and (c["prepended"] or len(x) <= c["buf"])
         if not match:
             return all("panic" not in s for s in st)
     if k == "lz4frame" and not (0 <= c["buf"] < 2 ** 32):
-        return "panic" not in st[0]
+        return st[0].get("err") == "error"
     return d == x
 
 
